@@ -41,7 +41,7 @@ CHECKS = {
    text="Exploration: fresh key (H4 forces the first candidates to be existing notes), block multiset conserved (+1 reference per extracted section / -1 reference and deleted note per inline), extracted note == subtree with promoted heading, remaining blocks keep order, links resolve to the same notes from the new location, extract(first sub-section) then inline == original bytes.",
    note="starts from formatted text; sub-directory libraries carry block references only", ref="§3 C09"),
  "C10": dict(tech="runtime monitoring: every offered list/section conversion at every line over the real LSP loop, conservation-in-order oracle + inverse-action round trips",
-   text="Exploration: block word-runs, links and nested blocks conserved in order, other notes untouched, change-list-type twice == original bytes, section-to-list then list-to-sections == original bytes for sections not adjacent to a list.",
+   text="Exploration: block word-runs, links and nested blocks conserved in order, blocks before and after the targeted list / section keep kind, containers and text, other notes untouched, change-list-type twice == original bytes, section-to-list then list-to-sections == original bytes for sections not adjacent to a list.",
    note="the round trip for a section with a preceding sibling section is an open finding (exact signature)", ref="§3 C10"),
  "C11": dict(tech="runtime monitoring: hook-driven scheduler (H1 gates park request workers at started / acquired / computed / exited) enumerating interleavings exhaustively for k<=2 (3 thorough) + hook-free floods; last-writer-wins register oracle at quiescence",
    text="Exhaustive over the hook-distinguishable interleavings for k in-flight requests (k<=2 quick: 148 schedules, k<=3 thorough) x every request method x {didChange, didSave} x {same, other note} x release orders; a worker parked inside its computation (acquired) may delay the edit but not lose it (bounded-progress verdict after release); plus floods of unsynchronised mixed traffic judged on final state; every schedule also issues a request right after the notification and checks it sees the new text.",
@@ -62,7 +62,7 @@ CHECKS = {
    text="Exploration: per library 12 (quick) / 48 (thorough) processes x RAYON_NUM_THREADS {1,2,3,4,8,16} x {import, one-by-one insert} x permutations; all dumps must be identical.",
    note="libraries of 50-400 notes with duplicate titles and equal ranks", ref="§3 C16"),
  "C19": dict(cat="fault_enumeration", tech="fault enumeration: the built `iwe normalize` binary under strace fault injection (SIGKILL / ENOSPC at every write-phase syscall, RLIMIT_FSIZE budgets) with directory snapshots before/after",
-   text="Fault enumeration: fault-free run checked for in-place, export-exact rewriting and no collateral changes (snapshot + syscall log); then EVERY write-phase syscall of the trace is a crash point (kill at k-th write-mode openat / write / rename, ENOSPC at k-th write) plus file-size limits; after each run every note must hold its complete old or new text.",
+   text="Fault enumeration: fault-free run checked for in-place, export-exact rewriting and no collateral changes (snapshot + syscall log); then EVERY file-system syscall the writing thread makes from its first write-mode open on is a crash point (SIGKILL on entry: openat, write, close, rename, copy_file_range, unlink ... whatever the write path uses; ENOSPC on every data-moving one; counted per tracee as strace does) plus file-size limits; a hard link to a note must keep its old content; after each run every note must hold its complete old or new text.",
    note="syscall granularity; power-loss reordering out of reach", ref="§3 C19"),
 }
 
